@@ -112,7 +112,7 @@ def plan(tier, seed):
             groups.append(pairs[k:k + 150])
     wf = []
     for mode in ("disp", "fsets", "fz", "mesh", "band", "qpoints", "dos", "pdos", "thermal", "tdisp", "writefc", "nac", "load", "mass"):
-        for var in range({"mass": 2, "disp": 4, "mesh": 6, "band": 5, "qpoints": 2, "dos": 5, "pdos": 3, "thermal": 5, "tdisp": 5, "writefc": 4, "nac": 3, "fsets": 2, "fz": 1, "load": 6}[mode]):
+        for var in range({"mass": 2, "disp": 4, "mesh": 6, "band": 5, "qpoints": 2, "dos": 5, "pdos": 3, "thermal": 5, "tdisp": 5, "writefc": 4, "nac": 3, "fsets": 2, "fz": 1, "load": 8}[mode]):
             wf.append({"kind": "workflow", "mode": mode, "var": var})
             wf.append({"kind": "workflow", "mode": mode, "var": var, "sys": "tri"})
     for var in range(32):
@@ -748,7 +748,7 @@ def run_workflow(case, seed):
             if np.abs(got - want).max() > 1e-6 * np.abs(want).max():
                 return fail("pahist/phonons", "yaml written with --pa %s, later run with pa %s: frequencies differ from phonopy.load by %.3g" % (pa1, pa2, np.abs(got - want).max()))
             return dict(ok=True, nontrivial=bool(pa1 != pa2), transitions=3, outcome="ok:pahist")
-        if mode == "load" and var >= 4:
+        if mode == "load" and var in (4, 5):
             # a calculation in another calculator's units, recorded only in the yaml file: phonopy-load writes force constants,
             # reads them back, and must still give the phonons of the library on the same data
             import phonopy
@@ -788,6 +788,31 @@ def run_workflow(case, seed):
             import phonopy
 
             open("BORN", "w").write(SYS[_cur["sys"]]["born"])
+            if var >= 6:
+                # two-run history: the first run records one NAC method in phonopy.yaml, the reload asks for the other one
+                m1, m2 = (("wang", "gonze"), ("gonze", "wang"))[var - 6]
+                rc, out = cli(base + ["--nac", "--nac-method", m1, "--qpoints", "0.1 0.2 0.3", "--include-all"])
+                if rc != 0 or not os.path.exists("phonopy.yaml"):
+                    return fail("cli-failed", out[-300:])
+                os.rename("phonopy.yaml", "run.yaml")
+                rc, out = cli(["run.yaml", "--fc-calc", "traditional", "--nac-method", m2, "--qpoints", "0.1 0.2 0.3 0.3 0.1 0.45"], load=True)
+                if rc != 0:
+                    return fail("phonopy-load-failed", out[-300:])
+                y = yaml.safe_load(open("qpoints.yaml"))
+                got = np.array([[b["frequency"] for b in p["band"]] for p in y["phonon"]])
+                res = {}
+                for m in (m1, m2):
+                    lpm = lib(seed, nac=True, symmetrize_fc=True)
+                    npm = dict(lpm.nac_params)
+                    npm["method"] = m
+                    lpm.nac_params = npm
+                    lpm.run_qpoints([[0.1, 0.2, 0.3], [0.3, 0.1, 0.45]])
+                    res[m] = lpm.get_qpoints_dict()["frequencies"]
+                distinct = bool(np.abs(res[m1] - res[m2]).max() > 1e-4 * np.abs(res[m2]).max())
+                if np.abs(got - res[m2]).max() > 1e-6 * np.abs(res[m2]).max():
+                    return fail("nac-method-after-reload", "phonopy-load --nac-method %s on a summary file written by a run with NAC_METHOD = %s gives other frequencies than the library with method %s (max dev %.3g THz%s)" % (
+                        m2, m1, m2, np.abs(got - res[m2]).max(), "; equal to method %s" % m1 if np.abs(got - res[m1]).max() < 1e-6 else ""))
+                return dict(ok=True, nontrivial=distinct, transitions=3, outcome="ok:load:nac-method")
             # the summary file of a run reloads to the calculation that was run; phonopy-load reproduces it
             rc, out = cli(base + ["--nac", "--mesh", "3", "3", "3"] + (["--include-all"] if var % 2 else []))
             if rc != 0 or not os.path.exists("phonopy.yaml"):
